@@ -181,3 +181,5 @@ def run(res, facts, tier):
     c08_transcode.run_rule(res, facts, tier)
     from . import c04_pairs
     c04_pairs.run_c08_rule(res, facts, tier)
+    from . import c08_htmlns
+    c08_htmlns.run_rule(res, facts, tier)
